@@ -467,6 +467,7 @@ type FuncSpec struct {
 	Pkg      string   // package path where declared
 	File     string
 	Allocates bool
+	AliasOf   string // funcfield only: the function value is always the closure with this package-relative name; its contract applies
 	Ghosts   []GhostUpd // ghost updates applied at return (ensures-level)
 }
 
@@ -775,7 +776,14 @@ func ParseContractFile(path string, pkgPath string) (*ContractFile, error) {
 			cur, curLemma = nil, nil
 			continue
 		case "func", "iface", "funcfield":
-			cur = &FuncSpec{Name: rest, Kind: kw, Trusted: trusted, Loops: map[int]*LoopSpec{}, Pkg: cf.Pkg, File: path}
+			alias := ""
+			if kw == "funcfield" {
+				if i := strings.Index(rest, " = closure "); i >= 0 {
+					alias = strings.TrimSpace(rest[i+len(" = closure "):])
+					rest = strings.TrimSpace(rest[:i])
+				}
+			}
+			cur = &FuncSpec{Name: rest, Kind: kw, Trusted: trusted, Loops: map[int]*LoopSpec{}, Pkg: cf.Pkg, File: path, AliasOf: alias}
 			cf.Funcs = append(cf.Funcs, cur)
 			curLemma = nil
 			continue
